@@ -344,7 +344,7 @@ pub fn run(rep: &Report) {
         });
     }
     rep.set_exhaustive(true);
-    let n = rep.tier.pick(80_000u64, 3_000_000);
+    let n = rep.tier.pick(400_000u64, 6_000_000);
     common::random_search(rep, "random", 70, n, &arb_case, &|c: &SepCase, l| {
         l.sample(4, || {
             let g1 = normalise_assignment(&c.toks, &c.s1);
@@ -354,7 +354,7 @@ pub fn run(rep: &Report) {
         check_case(c, l)
     });
     // unterminated block comments are errors wherever they stand (outside strings)
-    let n2 = rep.tier.pick(10_000u64, 300_000);
+    let n2 = rep.tier.pick(40_000u64, 600_000);
     common::random_search(
         rep,
         "unterminated-comment",
